@@ -12,6 +12,60 @@ from .facts import walk
 NORETURN = {"libast_fatal_error"}
 
 
+_MUST = {}
+
+
+def must_store_param(g, j):
+    """Does the unit-local function g store through its pointer parameter j (`*P = ..`) on every path to a return, without
+    reading `*P` first or letting P escape?  Then a call f(.., &v, ..) is a definite write of v."""
+    from . import flow
+    key = (g.unit.name, g.name, j)
+    if key in _MUST:
+        return _MUST[key]
+    _MUST[key] = False
+    if g.body is None or g.cfg is None or j >= len(g.params) or not g.params[j].get("tp"):
+        return False
+    pd = g.params[j]["d"]
+    # every mention of P is `*P` (as a store target or a read); anything else (P passed on, re-pointed, indexed) is an escape
+    for x in walk(g.body):
+        if x.get("k") == "ref" and x.get("d") == pd:
+            par = g.parent.get(x["i"])
+            while par is not None and par.get("k") in ("paren", "icast", "cast"):
+                par = g.parent.get(par["i"])
+            if par is None or not (par.get("k") == "un" and par.get("op") == "*"):
+                return False
+    cfg = nullness.prepared_cfg(g, NORETURN)
+    bad = [False]
+    rets = []
+
+    def is_deref(e):
+        e = X.strip(e)
+        return e is not None and e.get("k") == "un" and e.get("op") == "*" and (X.strip(e["ch"][0]) or {}).get("d") == pd
+
+    def transfer(st, n, blk):
+        if n.get("k") == "assign" and n.get("op") == "=" and is_deref(n["ch"][0]):
+            return True
+        return st
+
+    def visit(st, n, blk):
+        if n.get("k") == "un" and n.get("op") == "*" and (X.strip(n["ch"][0]) or {}).get("d") == pd and not st:
+            par = g.parent.get(n["i"])
+            while par is not None and par.get("k") in ("paren", "icast", "cast") and par.get("ck") != "LValueToRValue":
+                par = g.parent.get(par["i"])
+            if not (par is not None and par.get("k") == "assign" and par.get("op") == "=" and is_deref(par["ch"][0]) and any(y is n for y in walk(par["ch"][0]))):
+                bad[0] = True
+        if n.get("k") == "return":
+            rets.append(st)
+    flow.forward(cfg, False, transfer, join=lambda a, b: a and b, visit=visit)
+    ends = list(rets)
+    res = (not bad[0]) and bool(ends) and all(ends)
+    # a void function may fall off its end: the exit block's in-state counts too
+    if res and not any(x.get("k") == "return" for x in walk(g.body)):
+        res = False
+    _MUST[key] = res
+    return res
+
+
 def _classify(fn, n):
     """('use'|'def'|'usedef'|'maydef', decl) for a ref element to a local/param, or None"""
     if n.get("k") != "ref" or n.get("rk") not in ("local", "param"):
@@ -29,6 +83,16 @@ def _classify(fn, n):
     if par.get("k") == "un" and par.get("op") in ("++", "--"):
         return ("usedef", d)
     if par.get("k") == "un" and par.get("op") == "&":
+        # f(.., &v, ..) where f always stores through that parameter before reading it: a definite write
+        cur2, q = par, fn.parent.get(par["i"])
+        while q is not None and q.get("k") in ("paren", "icast", "cast"):
+            cur2, q = q, fn.parent.get(q["i"])
+        if q is not None and q.get("k") == "call" and getattr(fn, "unit", None) is not None:
+            g = fn.unit.functions.get(X.callee_name(q) or "")
+            if g is not None:
+                for j, a in enumerate(q["ch"][1:]):
+                    if a is cur2 and must_store_param(g, j):
+                        return ("def", d)
         return ("maydef", d)
     return ("use", d)
 
